@@ -269,12 +269,19 @@ func (s *Store) CARootSetCAS(idx, cidx uint64, rs []*structs.CARoot) (bool, erro
 	defer tx.Abort()
 
 	if err := caRootSetCASTxn(tx, idx, cidx, rs); err != nil {
+		if err == errCARootIndexMismatch {
+			return false, nil
+		}
 		return false, err
 	}
 
 	err := tx.Commit()
 	return err == nil, err
 }
+
+// errCARootIndexMismatch is returned by caRootSetCASTxn when the CAS index
+// does not match and nothing was written.
+var errCARootIndexMismatch = errors.New("CA roots index did not match")
 
 func caRootSetCASTxn(tx WriteTxn, idx, cidx uint64, rs []*structs.CARoot) error {
 	// There must be exactly one active CA root.
@@ -290,7 +297,7 @@ func caRootSetCASTxn(tx WriteTxn, idx, cidx uint64, rs []*structs.CARoot) error 
 
 	// Get the current max index
 	if midx := maxIndexTxn(tx, tableConnectCARoots); midx != cidx {
-		return nil
+		return errCARootIndexMismatch
 	}
 
 	// Go through and find any existing matching CAs so we can preserve and
